@@ -1,0 +1,100 @@
+//go:build verif
+
+package queue
+
+// Contracts for Queue (property C12: bounded FIFO, drop on Offer / evict-oldest on ForceOffer),
+// read by the verification machinery in /verif. Comment-only file.
+//
+// Abstract view: ghost history hist of every element ever accepted, the queue content is
+// hist[head..tail). The representation invariant ties the ring to that window without modular
+// arithmetic: slot j holds hist[head+d] where d is j's distance from read (wrapping once).
+
+/*@
+type Queue
+  ghost hist (Array Int U_T)
+  ghost head Int
+  ghost tail Int
+  invariant self.capacity >= 1 && len(self.ringBuffer) == self.capacity
+  invariant 0 <= self.read && self.read < self.capacity && 0 <= self.write && self.write < self.capacity
+  invariant 0 <= self.size && self.size <= self.capacity && self.size == self.tail - self.head && 0 <= self.head
+  invariant self.write == (self.read + self.size >= self.capacity ? self.read + self.size - self.capacity : self.read + self.size)
+  invariant forall j Int :: 0 <= j && j < self.capacity && (j >= self.read ? j - self.read : j + self.capacity - self.read) < self.size ==> self.ringBuffer[j] == sel(self.hist, self.head + (j >= self.read ? j - self.read : j + self.capacity - self.read))
+  monitor mutex guards read, write, size, hist, head, tail, elems:ringBuffer
+  invariant inv(self)
+
+func New
+  requires capacity >= 1                      -- a queue of capacity 0 cannot accept anything (ForceOffer would index an empty ring)
+  ghost at return: r0.head = 0
+  ghost at return: r0.tail = 0
+  ensures r0 != nil && fresh(r0) && inv(r0) && r0.capacity == capacity && r0.size == 0 && unlocked(r0.mutex)
+
+func Queue.Size
+  requires queue != nil && unlocked(queue.mutex)
+  modifies queue.read, queue.write, queue.size, queue.hist, queue.head, queue.tail, elems(queue.ringBuffer)
+  ensures unlocked(queue.mutex)
+
+func Queue.Capacity
+  requires queue != nil && unlocked(queue.mutex)
+  modifies queue.read, queue.write, queue.size, queue.hist, queue.head, queue.tail, elems(queue.ringBuffer)
+  ensures unlocked(queue.mutex)
+
+func Queue.poll
+  requires queue != nil && held(queue.mutex) && inv(queue)
+  modifies queue.read, queue.size, queue.head, elems(queue.ringBuffer)
+  ghost at return: queue.head = (success ? queue.head + 1 : queue.head)
+  ensures inv(queue) && held(queue.mutex)
+  ensures success <==> old(queue.size) != 0
+  ensures success ==> element == sel(queue.hist, old(queue.head)) && queue.head == old(queue.head) + 1
+  ensures !success ==> queue.head == old(queue.head)
+  ensures queue.tail == old(queue.tail) && queue.hist == old(queue.hist) && queue.write == old(queue.write)
+
+-- monitor variants: invariant at every release, lock discipline
+func Queue.Offer
+  requires queue != nil && unlocked(queue.mutex)
+  modifies queue.read, queue.write, queue.size, queue.hist, queue.head, queue.tail, elems(queue.ringBuffer)
+  ghost at return: queue.hist = (r0 ? upd(queue.hist, queue.tail, element) : queue.hist)
+  ghost at return: queue.tail = (r0 ? queue.tail + 1 : queue.tail)
+  ensures unlocked(queue.mutex)
+func Queue.ForceOffer
+  requires queue != nil && unlocked(queue.mutex)
+  modifies queue.read, queue.write, queue.size, queue.hist, queue.head, queue.tail, elems(queue.ringBuffer)
+  ghost at return: queue.hist = upd(queue.hist, queue.tail, element)
+  ghost at return: queue.tail = queue.tail + 1
+  ensures unlocked(queue.mutex)
+func Queue.Poll
+  requires queue != nil && unlocked(queue.mutex)
+  modifies queue.read, queue.write, queue.size, queue.hist, queue.head, queue.tail, elems(queue.ringBuffer)
+  ensures unlocked(queue.mutex)
+
+-- sequential variants: the FIFO statement itself
+func Queue.Offer#sequential
+  opt sequential
+  requires queue != nil && unlocked(queue.mutex)
+  modifies queue.write, queue.size, queue.hist, queue.tail, elems(queue.ringBuffer)
+  ghost at return: queue.hist = (r0 ? upd(queue.hist, queue.tail, element) : queue.hist)
+  ghost at return: queue.tail = (r0 ? queue.tail + 1 : queue.tail)
+  ensures r0 <==> old(queue.size) < queue.capacity                         -- a full queue drops the element
+  ensures r0 ==> queue.tail == old(queue.tail) + 1 && sel(queue.hist, old(queue.tail)) == element && queue.head == old(queue.head)
+  ensures !r0 ==> queue.tail == old(queue.tail) && queue.hist == old(queue.hist) && queue.head == old(queue.head)
+  ensures inv(queue)
+func Queue.ForceOffer#sequential
+  opt sequential
+  requires queue != nil && unlocked(queue.mutex)
+  modifies queue.read, queue.write, queue.size, queue.hist, queue.head, queue.tail, elems(queue.ringBuffer)
+  ghost at return: queue.hist = upd(queue.hist, queue.tail, element)
+  ghost at return: queue.tail = queue.tail + 1
+  ensures wasRemoved <==> old(queue.size) == queue.capacity                -- evicts the oldest iff full
+  ensures wasRemoved ==> removedElement == sel(old(queue.hist), old(queue.head)) && queue.head == old(queue.head) + 1
+  ensures !wasRemoved ==> queue.head == old(queue.head)
+  ensures queue.tail == old(queue.tail) + 1 && sel(queue.hist, old(queue.tail)) == element
+  ensures inv(queue)
+func Queue.Poll#sequential
+  opt sequential
+  requires queue != nil && unlocked(queue.mutex)
+  modifies queue.read, queue.size, queue.head, elems(queue.ringBuffer)
+  ensures success <==> old(queue.size) != 0
+  ensures success ==> element == sel(queue.hist, old(queue.head)) && queue.head == old(queue.head) + 1
+  ensures !success ==> queue.head == old(queue.head)
+  ensures queue.tail == old(queue.tail) && queue.hist == old(queue.hist)
+  ensures inv(queue)
+@*/
